@@ -9,7 +9,7 @@ iskani() { case "$1" in C02|C03|C07|C08|C11) return 0;; *) return 1;; esac; }
 want() { if [ "$MODE" = all ]; then return 0; fi; if iskani "$1"; then [ "$MODE" = kani ]; else [ "$MODE" = fast ]; fi; }
 for d in seeded/*/; do
   id=$(basename $d); prop=${id%-*}
-  case "$prop" in C14|C16|C05) continue;; esac
+  case "$prop" in C16|C05) continue;; esac
   want $prop || continue
   if git -C /repo apply --check "$PWD/$d/patch.diff" 2>/dev/null; then
     res=$(tools/mutant.sh "$d/patch.diff" $prop 2>&1 | grep -E "VIOLATION|obligation:|UNDECIDED|tier=" | head -4 | tr '\n' ' ')
@@ -20,7 +20,7 @@ for d in seeded/*/; do
 done
 for f in selftest/*.diff; do
   id=$(basename $f .diff)
-  case "$id" in m_d01*) prop=C03;; m_d04*) prop=C04;; m_d14*) prop=C20;; m_c02*) prop=C02;; *) prop=C03;; esac
+  case "$id" in m_d01*) prop=C03;; m_d04*) prop=C04;; m_d14*) prop=C20;; m_c02*) prop=C02;; m_d16*|m_d17*) prop=C14;; *) prop=C03;; esac
   want $prop || continue
   res=$(tools/mutant.sh "$f" $prop 2>&1 | grep -E "VIOLATION|obligation:|UNDECIDED|tier=" | head -4 | tr '\n' ' ')
   echo "$id ($prop) :: $res"
